@@ -241,8 +241,10 @@ func dial(network, addr string) (*SimConn, error) {
 		return refuse("injected")
 	}
 	n.nextConn++
-	c := &SimConn{id: n.nextConn, node: src, local: fmt.Sprintf("node%d:c%d", src, n.nextConn), remote: addr, client: true}
-	s := &SimConn{id: n.nextConn, node: l.node, local: addr, remote: c.local}
+	// like a real socket, the connection knows the resolved address of its peer,
+	// not the name that was dialed
+	c := &SimConn{id: n.nextConn, node: src, local: fmt.Sprintf("node%d:c%d", src, n.nextConn), remote: l.addr, client: true}
+	s := &SimConn{id: n.nextConn, node: l.node, local: l.addr, remote: c.local}
 	c.peer, s.peer = s, c
 	n.conns = append(n.conns, c)
 	l.queue = append(l.queue, s)
